@@ -179,6 +179,21 @@ func stmts(list []ast.Stmt, out *[]string, expr func(ast.Node)) {
 			*out = append(*out, "go "+src(s.Call.Fun))
 		case *ast.BlockStmt:
 			stmts(s.List, out, expr)
+		case *ast.AssignStmt:
+			expr(st)
+			// writes through a member, an element or a pointer change state that outlives the statement: part of the skeleton
+			for _, l := range s.Lhs {
+				switch l.(type) {
+				case *ast.SelectorExpr, *ast.IndexExpr, *ast.StarExpr:
+					*out = append(*out, "set "+src(l))
+				}
+			}
+		case *ast.IncDecStmt:
+			expr(st)
+			switch s.X.(type) {
+			case *ast.SelectorExpr, *ast.IndexExpr, *ast.StarExpr:
+				*out = append(*out, "set "+src(s.X))
+			}
 		default:
 			expr(st)
 		}
